@@ -44,7 +44,7 @@ def main():
     ]
     run.build_and_audit(["TdVerif.Props.C14"])
     if run.tier == "thorough":
-        run.leanchecker(["TdVerif.Props.C14", "TdVerif.Lemmas.C14", "TdVerif.Model.C14Seq"])
+        run.leanchecker(["TdVerif.Props.C14", "TdVerif.Lemmas.C14", "TdVerif.Lemmas.C14Nested", "TdVerif.Model.C14Seq", "TdVerif.Model.C14Prob"])
     drv = run.driver()
     rng = run.rng
     quick = run.tier == "quick"
